@@ -74,6 +74,13 @@ check("C11", "exploration",
       "Trusts the table model cpverif/models/dataformatmodel.py and Python's codecs registry; ambiguous spellings are unjudged.",
       "boundary observation of set_property / Cid.read vs table model, exhaustive over the stated pools", "DESIGN.md 5/C11")
 
+check("C07", "exploration",
+      "The (header, rows, bad-row position and kind, limit, API, storage) space the property names is enumerated; the real "
+      "cutplace.rows / cutplace.validate / applications.main --until are executed on each and compared with the reader model's "
+      "(header, limit) window; a generator monitor on Reader.rows counts what validate() pulls.",
+      "Trusts M-reader; compares only intact files.",
+      "enumerated executions of the three APIs vs reader-window model + generator monitor on Reader.rows", "DESIGN.md 5/C07")
+
 NOT_YET = "check not built yet in this session; see DESIGN.md section 5 for the planned monitor"
 
 def main():
